@@ -128,8 +128,12 @@ class AsyncHTTP2Connection(AsyncConnectionInterface):
                 )
                 self._max_streams_semaphore = AsyncSemaphore(local_settings_max_streams)
 
-                for _ in range(local_settings_max_streams - self._max_streams):
-                    await self._max_streams_semaphore.acquire()
+                # These acquires never block, but they are checkpoints: being
+                # cancelled half way through would leave the connection
+                # initialised with a semaphore that allows too many streams.
+                with AsyncShieldCancellation():
+                    for _ in range(local_settings_max_streams - self._max_streams):
+                        await self._max_streams_semaphore.acquire()
 
         await self._max_streams_semaphore.acquire()
 
